@@ -5,7 +5,7 @@ CONSTANTS
   Kind = "nameaddr"
   Atoms <- AtomsKnownW
   Prefix <- PfxABS
-  MaxLen = 11
+  MaxLen = 10
   Cfgs <- CfgsNA12
   Junk = 34
   EmitOn = TRUE
